@@ -1,7 +1,12 @@
 /-
 C16 — variable listing matches the printed order; encodable iff no variables.
 
-Proved: no name occurs twice anywhere in a tree the API can build; an item encodes to bytes iff
+Proved: no name occurs twice anywhere in a tree the API can build - for EVERY history of factory
+calls and fills (`Reach`, `reachable_well_formed`, `reachable_names_unique`: well-formedness is an
+invariant of every factory and of FillVariables, ellipsis expansion at any nesting depth included),
+and in every message `sml.Parse` returns, for every input text (`parsed_well_formed`,
+`parsed_names_unique`: the parser builds items through the factories only), and every item the
+HSMS decoder returns is well formed, variable-free and lists no variable (`decoded_well_formed`); an item encodes to bytes iff
 it has no variable (for trees without the error placeholder `emptyItemNode` inside); the
 variable list is, slot by slot, the sequence of variable names the printer writes
 (`printed_names`), so the listing order is the printed order; the reported size is the number
@@ -11,6 +16,9 @@ import SecsModel.Proofs.Wire
 import SecsModel.Props.C02
 import SecsModel.Props.C12
 import SecsModel.Model.Print
+import SecsModel.Proofs.FillWF
+import SecsModel.Proofs.ParserWF
+import SecsModel.Proofs.DecodeWF
 namespace Secs.C16
 open Secs
 
@@ -392,6 +400,85 @@ in order in the printed form -/
 theorem listing_matches_print (level : Nat) (t : Tmpl) (hw : t.wf = true) :
     nodupNames t.vars = true ∧ Occurs (t.vars.map shown) (t.printAt level) :=
   ⟨vars_nodup t hw, printed_order level t (wf_leafNamesPlain t hw)⟩
+
+
+/-! ### every tree the API can build: any history of factory calls and fills -/
+
+/-- the trees reachable through the item API: the nine factories (a list factory on reachable
+items) and FillVariables on a reachable tree with a table whose fill-in items are reachable -/
+inductive Reach : Tmpl → Prop
+  | int (w : Nat) (args : List GoVal) (t : Tmpl) : mkInt w args = some t → Reach t
+  | uint (w : Nat) (args : List GoVal) (t : Tmpl) : mkUint w args = some t → Reach t
+  | float (w : Nat) (args : List GoVal) (t : Tmpl) : mkFloat w args = some t → Reach t
+  | binary (args : List GoVal) (t : Tmpl) : mkBinary args = some t → Reach t
+  | boolean (args : List GoVal) (t : Tmpl) : mkBoolean args = some t → Reach t
+  | ascii (s : Bytes) (t : Tmpl) : mkAscii s = some t → Reach t
+  | asciiVar (n : Name) (mn mx : Int) (t : Tmpl) : mkAsciiVar n mn mx = some t → Reach t
+  | empty : Reach .empty
+  | list (args : List GoVal) (t : Tmpl) : (∀ x, GoVal.item x ∈ args → Reach x) → mkList args = some t → Reach t
+  | fill (t t' : Tmpl) (env : Env) : Reach t → (∀ k x, (k, GoVal.item x) ∈ env → Reach x) →
+      t.fill env = some t' → Reach t'
+
+theorem itemsWfS_of_forall : ∀ (args : List GoVal), (∀ x, GoVal.item x ∈ args → x.wfS = true) → itemsWfS args = true
+  | [], _ => rfl
+  | g :: r, h => by
+    have hr := itemsWfS_of_forall r (fun x hx => h x (List.mem_cons_of_mem _ hx))
+    cases g with
+    | item t => simp only [itemsWfS, Bool.and_eq_true]; exact ⟨h t (List.mem_cons_self ..), hr⟩
+    | sint _ _ | uint _ _ | f32 _ | f64 _ | str _ | bool _ | other => simpa [itemsWfS] using hr
+
+theorem envItemsWfS_of_forall : ∀ (env : Env), (∀ k x, (k, GoVal.item x) ∈ env → x.wfS = true) → Env.itemsWfS env = true
+  | [], _ => rfl
+  | (k, v) :: r, h => by
+    have hr := envItemsWfS_of_forall r (fun k x hx => h k x (List.mem_cons_of_mem _ hx))
+    cases v with
+    | item t => simp only [Env.itemsWfS, Bool.and_eq_true]; exact ⟨h k t (List.mem_cons_self ..), hr⟩
+    | sint _ _ | uint _ _ | f32 _ | f64 _ | str _ | bool _ | other => simpa [Env.itemsWfS] using hr
+
+/-- **invariant over all histories**: whatever sequence of factory calls and fills produced a
+tree, it is well formed -/
+theorem reachable_well_formed (t : Tmpl) (h : Reach t) : t.wfS = true := by
+  induction h with
+  | int w args t h => exact mkInt_wfS w args t h
+  | uint w args t h => exact mkUint_wfS w args t h
+  | float w args t h => exact mkFloat_wfS w args t h
+  | binary args t h => exact mkBinary_wfS args t h
+  | boolean args t h => exact mkBoolean_wfS args t h
+  | ascii s t h => exact mkAscii_wfS s t h
+  | asciiVar n mn mx t h => exact mkAsciiVar_wfS n mn mx t h
+  | empty => rfl
+  | list args t _ h ih => exact mkList_wfS args t h (itemsWfS_of_forall args ih)
+  | fill t t' env _ _ h iht ihenv => exact t.fill_wfS t' env iht (envItemsWfS_of_forall env ihenv) h
+
+/-- … so **no name occurs twice anywhere in it** -/
+theorem reachable_names_unique (t : Tmpl) (h : Reach t) : nodupNames t.vars = true :=
+  wfS_vars_nodup t (reachable_well_formed t h)
+
+/-- every message the SML parser returns, for EVERY input text, carries a well-formed item … -/
+theorem parsed_well_formed (ual : List Nat) (input : Bytes) (msgs : List Msg) (errs warns : List Sml.Diag)
+    (h : Sml.parse ual input = .done msgs errs warns) : ∀ m ∈ msgs, m.item.wfS = true :=
+  Sml.parse_wf ual input msgs errs warns h
+
+/-- … in which no name occurs twice -/
+theorem parsed_names_unique (ual : List Nat) (input : Bytes) (msgs : List Msg) (errs warns : List Sml.Diag)
+    (h : Sml.parse ual input = .done msgs errs warns) : ∀ m ∈ msgs, nodupNames m.item.vars = true :=
+  fun m hm => wfS_vars_nodup _ (parsed_well_formed ual input msgs errs warns h m hm)
+
+/-- every item the HSMS decoder returns, for EVERY byte string, is well formed (values in range,
+floats finite, sizes within the limit), variable-free, and lists no variable -/
+theorem decoded_well_formed (fuel : Nat) (inp : Bytes) (t : Tmpl) (r : Bytes) (h : decItem fuel inp = some (t, r))
+    (hb : IsBytes inp) : t.wf = true ∧ t.closed = true ∧ t.vars = [] := by
+  have := decItem_wf fuel inp t r h hb
+  exact ⟨this.1, this.2, closed_vars_nil t this.2⟩
+
+/-- non-vacuity (a test): `<L <U1 1 x> y>` is reachable by two factory calls -/
+example : Reach (.list (.item (.uint 1 [.val 1, .var [120]]) (.var [121] .nil))) :=
+  Reach.list [.item (.uint 1 [.val 1, .var [120]]), .str [121]] _
+    (fun x hx => by
+      simp only [List.mem_cons, GoVal.item.injEq, List.mem_nil_iff, or_false, reduceCtorEq] at hx
+      subst hx
+      exact Reach.uint 1 [.uint 8 1, .str [120]] _ rfl)
+    rfl
 
 /-! ### non-vacuity -/
 example : Tmpl.wf (.list (.item (.uint 1 [.val 1, .var [120]]) (.var [121] .nil))) = true := by decide
